@@ -60,11 +60,25 @@ pub struct SecResult { pub deltas: Vec<TxDelta>, pub err: Option<String> }
 #[derive(Clone, Debug, Default)]
 pub struct RunOpts { pub symbol_base: Vec<String>, pub usd_years: Option<(i32, i32)>, pub date_fmt: Option<String>,
     /// the rate cache starts out as an earlier run on this day would have left it (every published rate before that day, nothing after)
-    pub stale_cache_until: Option<Date> }
+    pub stale_cache_until: Option<Date>,
+    /// --force-download over a cache whose every rate is wrong (an old, hand-edited or corrupted cache): nothing of it may be used
+    pub forced_over_wrong_cache: bool }
 
 pub enum RunErr { Panic(PanicInfo), Run(String), BadInit(String) }
 
 fn loader_for(o: &RunOpts) -> RateLoader {
+    if let (Some((a, b)), true) = (o.usd_years, o.forced_over_wrong_cache) {
+        let mut remote: HashMap<u32, Vec<DailyRate>> = HashMap::new();
+        let mut cached: HashMap<u32, Vec<DailyRate>> = HashMap::new();
+        for y in a..=b {
+            let mut d = Date::from_calendar_date(y, Month::January, 1).unwrap();
+            let (mut all, mut wrong) = (vec![], vec![]);
+            while d.year() == y { if let Some(r) = synthetic_rate(d) { all.push(DailyRate::new(d, r)); wrong.push(DailyRate::new(d, r + rust_decimal::Decimal::new(7, 2))); } d = d.next_day().unwrap(); }
+            remote.insert(y as u32, all);
+            cached.insert(y as u32, wrong);
+        }
+        return RateLoader::new(true, Box::new(InMemoryRatesCache { rates_by_year: RcRefCellT::new(cached) }), Box::new(MockRemoteRateLoader { remote_year_rates: RcRefCellT::new(remote) }), WriteHandle::empty_write_handle());
+    }
     match (o.usd_years, o.stale_cache_until) {
         (Some((a, b)), Some(until)) => {
             let mut remote: HashMap<u32, Vec<DailyRate>> = HashMap::new();
